@@ -871,6 +871,57 @@ def zrank_recursion(rep, ex: Explorer, cls: str):
         writes = [ev for ev, Q in iter_events(p.events) if ev.kind in ("attr.set", "dict.set", "list.append") and not Q]
         rep.check(len(news) == 1 and not writes, "ZRANK.pure", site2, "effects", "ranking a world uses a solver of its own and writes nothing", extracted=f"{len(news)} solver(s) created, {len(writes)} write(s)", required="1, 0", function=site2)
     rep.floor(f"z_part2ocf paths of {cls.rsplit('.', 1)[1]}", m, 1)
+    # any other way into the recursion (a batch method, a helper): it starts at the highest layer from exactly the literals of
+    # one world, like the entry above - otherwise the ranks it produces are not the ranks rank_world produces
+    import ast as _ast
+
+    for c in [x for x in ex.prog.classes if x == cls or cls in ex.prog.mro(x) or x in ex.prog.mro(cls)]:
+        for name, fi in sorted(ex.prog.classes[c].methods.items()):
+            if name in ("_rec_z_rank", "z_part2ocf"):
+                continue
+            if not any(isinstance(n_, _ast.Call) and isinstance(n_.func, _ast.Attribute) and n_.func.attr == "_rec_z_rank" for n_ in _ast.walk(fi.node)):
+                continue
+            site3 = fn_label(ex.prog, fi.qualname)
+            a_ = fi.node.args
+            extra = [Sym(("arg", x.arg)) for x in (a_.posonlyargs + a_.args)[1:]]
+
+            def setup3(I, extra=extra):
+                s_ = _obj(I, cls, lambda I: {"_z_partition": P_value("cond"), "_state": I.alloc(HDict(entries={"z_partition_extended": Sym("extended-mode", "bool")}))})
+                return [s_] + list(extra), {}
+
+            paths3 = ex.run(fi.qualname, setup3, summaries=summ, key=f"zentry-{fi.qualname}")
+            k3 = 0
+            seen3 = set()
+            for p in paths3:
+                for ev, Q in iter_events(p.events):
+                    if ev.kind != "reccall":
+                        continue
+                    k3 += 1
+                    idx = [a.lin for a in ev.args if isinstance(a, LinV)]
+                    ss = [s_ for s_ in ev.snap if s_[0] == "solver"]
+                    if not ss:
+                        raise AnalysisError(f"{site3}:{ev.node.lineno}: the solver handed to the recursion is not an object the analysis follows")
+                    items = flat(ss[0][3])
+                    cands = set()
+
+                    def find(t):
+                        if isinstance(t, tuple):
+                            if len(t) == 3 and t[0] == "elem" and t[2] == "key":
+                                cands.add(t[1])
+                            for x in t:
+                                find(x)
+
+                    find(tuple(items))
+                    ok_scope = any(canon_items(items) == canon_items(world_items(v_)) for v_ in cands)
+                    ok_idx = bool(idx) and idx[0] == LAST
+                    key3 = (ev.node.lineno, ok_scope, ok_idx)
+                    if key3 in seen3:
+                        continue
+                    seen3.add(key3)
+                    rep.check(ok_idx, "ZRANK.recursion", f"{site3}:{ev.node.lineno}", "start index (other entry)", "every entry into the rank recursion starts at the highest layer", extracted=F.show_lin(idx[0]) if idx else "?", required="len(P)-1", function=site3)
+                    rep.check(ok_scope, "ZRANK.recursion", f"{site3}:{ev.node.lineno}", "start scope (other entry)", "every entry into the rank recursion starts from exactly the literals of one world", extracted=show_items(items)[:300], required="the literals of the world", function=site3)
+            if k3 == 0:
+                raise AnalysisError(f"{site3}: calls the rank recursion, but no path of the analysis reaches the call")
 
 
 def rank_cache(rep, ex: Explorer, cls: str, compute: str, rule="ZRANK.cache"):
